@@ -885,6 +885,14 @@ func (d *driver) runCase(c tcase, pk int, p *packet, allBits bool) {
 			if !allBits && k > 4 && k%5 != 0 {
 				continue
 			}
+			if len(bytes.Trim(p.b[len(p.b)-k:], "\x00")) == 0 {
+				// The cut bytes are all zero: the receiver's zero fill (make + copy in unpack) rebuilds the very same
+				// ciphertext, so this is not the model's mutation (its ciphertext cells are never zero bytes).
+				// Inexact abstraction: skipped and counted, never judged.
+				d.out.Emit(rec{Role: "note", Nf: c.Nf, Kind: "trunc-zero-tail", Region: c.Region, Fi: c.Fi, Sub: c.Sub, Pk: pk, Off: len(p.b) - k,
+					Bit: -1, Val: k, Out: "rejected", Why: c.Role, Touched: []string{}, Pred: c.Pred, DD: true, Cok: true})
+				continue
+			}
 			d.observe(c, pk, p, p.b[:len(p.b)-k], len(p.b)-k, -1, k)
 		}
 	case "replaceuid":
